@@ -1088,6 +1088,12 @@ class System(BaseModel, Serializable):
 
                     for var in coupling_prev:
                         coupling_prev[var][samples.curr_idx, ...] = y[var][samples.curr_idx, ...]
+                    # A sample whose new iterate is NaN can never converge: drop it now (before it enters the
+                    # least-squares step) and return NaN for every output of the loop
+                    for var in coupling_prev:
+                        samples.valid_idx = np.logical_and(samples.valid_idx, ~np.isnan(coupling_prev[var]))
+                    for var in scc_written:
+                        y[var][np.logical_and(~samples.valid_idx, ~samples.converged_idx), ...] = np.nan
                     residual_hist.append(copy.deepcopy(residual))
                     coupling_hist.append(copy.deepcopy(coupling_prev))
 
